@@ -153,8 +153,10 @@ def p_range_end(e: list[Any], lay: Layout, *, start: bool) -> str:
 
 def p_path(e: list[Any], lay: Layout) -> str:
     _, root, segs = e
-    brackets_root = not is_ident(root)
-    if brackets_root:
+    brackets_root = not isinstance(root, str) or not is_ident(root)
+    if not isinstance(root, str):  # indirect root: the variable is named by another path
+        buf = ["[" + lay.ows() + p_path(root, lay) + lay.ows() + "]"]
+    elif brackets_root:
         buf = ["[" + lay.ows() + quote_string(root, lay, raw_nl=False) + lay.ows() + "]"]
     else:
         buf = [root]
